@@ -535,7 +535,7 @@ func (rn *runner) overlaps(r *rand.Rand, tie *lib.Tie, mon *lib.Monitor, rounds 
 	for i := 0; i < rounds; i++ {
 		ov := genOverlap(r)
 		obs := runOverlap(ov)
-		key := fmt.Sprint(ov.Class, ov.Prefix, ov.Gate, ov.Queued)
+		key := fmt.Sprint(ov.Class, ov.Prefix, ov.Gate, ov.Queued, ov.Advance)
 		mon.Eval(key, obs.Forced, map[string]any{"overlap": ov, "gate": obs.GateOut, "outcomes": obs.Outs})
 		mon.Count("class:" + ov.Class)
 		if obs.Forced {
@@ -639,18 +639,18 @@ func main() {
 	rn := &runner{f: f}
 	exLen := f.N(3, 4)
 	ex := res.Tie("electric-exhaustive", "K2",
-		fmt.Sprintf("ALL operation sequences of length <= %d over a 28-operation alphabet (Model API and both servers; add/create/update with and without masks/delete with and without allow-missing/change/clear/set-active/find over mode ids a, b, c, one generated id, and the placeholder active mode's own id — \"\" by default — for every Model-API operation that takes an id) on NewModel(), and all sequences of length <= %d from three configured initial states (WithInitialMode + WithInitialActiveMode: placeholder naming no mode / a copy of an initial mode / the id of a mode added later); after every step the result and the whole observable state (sorted modes, active mode, normal mode) and the events delivered to PullModes / PullActiveMode subscribers are compared with the Lean model; distinct = distinct (initial state, operation prefix)", exLen, exLen-1))
+		fmt.Sprintf("ALL operation sequences of length <= %d over a 31-operation alphabet (Model API and both servers; add/create/update with and without masks/delete with and without allow-missing/change/clear/set-active/find over mode ids a, b, c, one generated id, UpdateMode as an upsert (WithCreateIfAbsent, with and without a mask that leaves the id out) and DeleteMode with WithExpectedValue, and the placeholder active mode's own id — \"\" by default — for every Model-API operation that takes an id) on NewModel(), and all sequences of length <= %d from three configured initial states (WithInitialMode + WithInitialActiveMode: placeholder naming no mode / a copy of an initial mode / the id of a mode added later); after every step the result and the whole observable state (sorted modes, active mode, normal mode) and the events delivered to PullModes / PullActiveMode subscribers are compared with the Lean model; plus the construction itself for the accepted configurations and for three rejected ones (id configured twice, mode without id: panic in model and code); distinct = distinct (initial state, operation prefix)", exLen, exLen-1))
 	ex.Exhaustive = true
 	tie := res.Tie("electric-random", "K1",
-		"random operation sequences (length 1-40) from one PRNG, 40% of them from a random InitOk configuration (0-3 initial modes, placeholder active mode with id \"\"/fresh/existing/future), over 8 ids incl. ids the scripted RNG will generate plus \"\" and the placeholder's id as arguments, random masks (nil, empty, subsets of id/title/normal/start_time/description/voltage/segments, unknown path), both API levels, documented contract panics, id-generation retries and exhaustion; every step's result, whole observable state and stream events compared with the Lean model; distinct = distinct operation prefix")
+		"random operation sequences (length 1-40) from one PRNG, 40% of them from a random InitOk configuration (0-3 initial modes, placeholder active mode with id \"\"/fresh/existing/future), over 8 ids incl. ids the scripted RNG will generate plus \"\" and the placeholder's id as arguments, random masks (nil, empty, subsets of id/title/normal/start_time/description/voltage/segments, unknown path), Model-level write options on UpdateMode / DeleteMode (WithCreateIfAbsent, WithExpectAbsent, WithExpectedValue with blank / plausible / random values), rejected configurations (construction panics), both API levels, documented contract panics, id-generation retries and exhaustion; every step's result, whole observable state and stream events compared with the Lean model; distinct = distinct operation prefix")
 	rn.mon = res.Monitor("electric-invariants",
-		"after EVERY step of every sequence on the real model, with plain Go bookkeeping as oracle: I1 at most one normal mode; I2 a delete of the active id fails and keeps the mode; I3 once changed the active id is in modes; clear selects the normal mode / NotFound; a successful switch to a different id stamps start_time = clock now; delete of an absent id = NotFound, or OK with allow-missing; a failed operation changes nothing; no panic other than the two documented contract panics; PullModes / PullActiveMode followed from the model's creation: every expected event arrives, the subscriber's folded view has at most one normal mode after every event and equals Modes() at every operation boundary, an active-mode event is the active mode and names a stored mode; non-trivial = more than one step")
+		"after EVERY step of every sequence on the real model, with plain Go bookkeeping as oracle: I1 at most one normal mode; I2 a delete of the active id fails and keeps the mode, and a delete of the id under which the active mode was last selected never succeeds; I3 once changed the active id is in modes; clear selects the normal mode / NotFound; a successful switch to a different id stamps start_time = clock now; delete of an absent id = NotFound, or OK with allow-missing; a failed operation changes nothing; no panic other than the two documented contract panics; PullModes / PullActiveMode followed from the model's creation: every expected event arrives, the subscriber's folded view has at most one normal mode after every event and equals Modes() at every operation boundary, an active-mode event is the active mode and names a stored mode; non-trivial = more than one step")
 	stress := res.Monitor("electric-stress",
 		"2-4 goroutines issue 5-24 random operations each on one shared model (Model API and servers mixed); I1 and I3 evaluated at quiescence, no panic; one evaluation = one round")
 	k4 := res.Tie("electric-forced-overlap", "K4",
-		"forced overlaps: a ChangeActiveMode is parked inside Model.mu through the injected clock, 2-4 calls (same RPC on the same id with and without allow-missing, racing normal flags via create/update/add, deletes of the mode being switched to, mixed) are issued concurrently and observed blocked on the model's locks (goroutine dump), then all are released; the observed per-call outcomes + final state are matched to a serial order and that order is executed by the Lean model (C19_mutex_serialises: every execution equals some serial run); distinct = (class, prefix, gate, queued)")
+		"forced overlaps: a ChangeActiveMode is parked inside Model.mu through the injected clock, 2-4 calls (same RPC on the same id with and without allow-missing, racing normal flags via create/update/upsert/add, deletes of the mode being switched to, mixed) are issued concurrently and observed blocked on the model's locks (goroutine dump), then all are released; stamp rounds (1 in 4) are the dual: a write to the mode list (create/add/update/delete) is parked inside the lock, 1-3 switches of the active mode (ChangeActiveMode, UpdateActiveMode, ChangeToNormalMode, ClearActiveMode, now and then with a delete/update of a target) queue behind it, the model clock is advanced while they wait and the old active mode is observed at the new instant, then the parked call is released - the serial order is performed at the advanced instant; the observed per-call outcomes + final state are matched to a serial order and that order is executed by the Lean model (C19_mutex_serialises: every execution equals some serial run); distinct = (class, prefix, gate, queued)")
 	serial := res.Monitor("electric-serialisable",
-		"per forced-overlap round on the real code: every call's outcome and the final state must equal those of SOME serial order of the calls (oracle: the same calls run sequentially on a fresh real model, all permutations tried); a delete with allow-missing must never report NotFound; no panic, no stuck call; one evaluation = one round, non-trivial = the queued calls were observed blocked behind the parked one")
+		"per forced-overlap round on the real code: every call's outcome and the final state must equal those of SOME serial order of the calls (oracle: the same calls run sequentially on a fresh real model, all permutations tried); a delete with allow-missing must never report NotFound; in stamp rounds the start time returned by a switch that waited for the lock is the clock's time at the switch (the advanced instant; or the stored start time when the mode was already active), never the instant at which the call started to queue; no panic, no stuck call; one evaluation = one round, non-trivial = the queued calls were observed blocked behind the parked one")
 	if f.Driver != "" {
 		d, err := lib.StartDriver(f.Driver)
 		if err != nil {
